@@ -158,14 +158,18 @@ def roundtrip_ints(V):
 @obligation("C14", "roundtrip.cooperative", functions=F, bounds="two planning problems (PM input vector + MB trajectory, schema order)")
 def roundtrip_coop(V):
     warnings.filterwarnings("ignore")
-    a, va, ta = build_solution(V, "a_", 1, "PMInput", 0)
-    b, vb, tb = build_solution(V, "b_", 2, "ST", 0)
+    ids = (1, 2) if not V.flag("ids_descending") else (9, 4)
+    a, va, ta = build_solution(V, "a_", ids[0], "PMInput", 0)
+    b, vb, tb = build_solution(V, "b_", ids[1], "ST", 0)
     sol_ = Solution(ScenarioID.from_benchmark_id("C-USA_US101-33_2_T-1", "2020a"), [a, b], None, None, None)
     root, back = roundtrip(V, sol_)
     V.prove("both planning problems read back in order", V.And(len(back.planning_problem_solutions) == 2,
-                                                                 [p.planning_problem_id for p in back.planning_problem_solutions] == [1, 2],
+                                                                 [p.planning_problem_id for p in back.planning_problem_solutions] == list(ids),
                                                                  back.benchmark_id == sol_.benchmark_id))
     if len(back.planning_problem_solutions) == 2:
+        V.prove("each planning problem keeps its vehicle model, cost function and trajectory type", V.And(
+            [q.vehicle_model is p.vehicle_model and q.cost_function is p.cost_function and q.trajectory_type is p.trajectory_type
+             for p, q in zip([a, b], back.planning_problem_solutions)]))
         check_states(V, "PMInput", back.planning_problem_solutions[0].trajectory, va, ta, "problem 1: ")
         check_states(V, "ST", back.planning_problem_solutions[1].trajectory, vb, tb, "problem 2: ")
 
